@@ -14,3 +14,11 @@ Definition id_lo (i : N) : N := i mod 2 ^ 192.
 
 (* the shared OCaml prelude converts to Z as well; make sure the type is extracted *)
 Definition z_unused : Z := 0%Z.
+
+(* release build of the same loader; prune's own index *)
+Definition index_of_release (m : imode) (files : list ifile) : option index :=
+  index_of_release_with msort_entries_by_id msort_ids m files.
+Definition prune_index_of (files : list ifile) : option index :=
+  prune_index_of_with msort_entries_by_id msort_ids files.
+Definition prune_index_of_release (files : list ifile) : option index :=
+  index_of_gen pack_size_release prune_loaded_packs msort_entries_by_id msort_ids PRUNE_INDEX_TYPE files.
